@@ -107,7 +107,10 @@ var mailbox []*mail
 func mailTake(id unsafe.Pointer) *mail {
 	for i, m := range mailbox {
 		if m.id == id {
-			mailbox = append(mailbox[:i], mailbox[i+1:]...)
+			for zz := i; zz+1 < len(mailbox); zz++ {
+				mailbox[zz] = mailbox[zz+1]
+			}
+			mailbox = mailbox[:len(mailbox)-1]
 			m.flag.Load()
 			m.taken = true
 			return m
